@@ -1177,13 +1177,16 @@ CaseX86M_GPB_MulDiv:
 
     case InstDB::kEncodingX86Call:
       if (isign3 == ENC_OPS1(Reg)) {
+        opcode.add_prefix_by_size(o0.x86_rm_size() == 2 ? 2u : 0u);
         rb_reg = o0.id();
         goto EmitX86R;
       }
 
       rm_rel = &o0;
-      if (isign3 == ENC_OPS1(Mem))
+      if (isign3 == ENC_OPS1(Mem)) {
+        opcode.add_prefix_by_size(o0.x86_rm_size() == 2 ? 2u : 0u);
         goto EmitX86M;
+      }
 
       // Call with 32-bit displacement use 0xE8 opcode. Call with 8-bit displacement is not encodable so the
       // alternative opcode field in X86DB must be zero.
